@@ -518,6 +518,11 @@ func singleAssignLocals(fn *ssa.Function) map[string]token.Pos {
 							out[id.Name] = r.Lparen
 						case *ast.CompositeLit:
 							out[id.Name] = r.Lbrace
+						case *ast.UnaryExpr:
+							// x := &T{...}: the allocation carries the position of the literal's brace
+							if cl, ok := r.X.(*ast.CompositeLit); ok && r.Op == token.AND {
+								out[id.Name] = cl.Lbrace
+							}
 						}
 					}
 				}
